@@ -37,6 +37,7 @@ func runC04(c *Ctx) {
 	noExitRule(c, parserEntries)
 	panickingDecoderContained(c, parserEntries)
 	noLockReentry(c, parserEntries)
+	searchOffsetBounded(c, "search-offset-bounded", "pkg/formats", "pkg/reader", "pkg/native/unserializers")
 	wellFounded(c, parserEntries)
 	nilMapWriteRule(c, parserEntries)
 	// "never … return both or neither" for format detection: no (empty format, nil error)
@@ -69,6 +70,7 @@ func runC07(c *Ctx) {
 	wellFounded(c, serializerEntries)
 	nilMapWriteRule(c, serializerEntries)
 	mapOrderRule(c, ds)
+	noGoroutines(c, "drivers-sequential", ds, "serializer entry points")
 	nestingAcyclic(c)
 	noLockReentry(c, serializerEntries)
 }
